@@ -46,7 +46,7 @@ static idns_t ids[NS_MAX];
 static const void *qtab[MAXW];
 
 /* ---------- pct ---------- */
-static long prio[MAXW]; static long lowprio; static long *chg; static int nchg; static long stepno;
+static long prio[MAXW]; static long lowprio; static long *chg; static int nchg; static long stepno; static long stall_until[MAXW];
 
 /* ---------- virtual clock ---------- */
 static long vsec = 1000, vnsec = 0;
@@ -63,7 +63,7 @@ void vrt_opts_from_env(vrt_opts *o){
   vrt_default_opts(o);
   if ((s = getenv("VRT_NW"))) o->nworkers = atoi(s);
   if ((s = getenv("VRT_SEED"))) o->seed = (unsigned)strtoul(s, 0, 10);
-  if ((s = getenv("VRT_STRAT"))) o->strategy = !strcmp(s, "pct") ? VRT_STRAT_PCT : !strcmp(s, "rr") ? VRT_STRAT_RR : VRT_STRAT_RANDOM;
+  if ((s = getenv("VRT_STRAT"))) o->strategy = !strcmp(s, "pct") ? VRT_STRAT_PCT : !strcmp(s, "rr") ? VRT_STRAT_RR : !strcmp(s, "delay") ? VRT_STRAT_DELAY : VRT_STRAT_RANDOM;
   if ((s = getenv("VRT_PCT_DEPTH"))) o->pct_depth = atoi(s);
   if ((s = getenv("VRT_PCT_LEN"))) o->pct_len = atoi(s);
   if ((s = getenv("VRT_MAX_SPIN"))) o->max_spin = atol(s);
@@ -254,6 +254,19 @@ static int pick(int spin){
     if (spin) prio[me] = --lowprio;
     next = 0; for (i = 1; i < NW; i++) if (prio[i] > prio[next]) next = i;
     return next;
+  case VRT_STRAT_DELAY: {
+    /* delay scheduling: at any point, with probability 1/24, the running worker is frozen while the others go on,
+       until they all spin / idle without progress or 600 further points have passed ("one thread stalls between two
+       of its accesses while another runs a whole operation"); otherwise as the random strategy */
+    int cand[MAXW], nc = 0;
+    stepno++;
+    if (nonprogress > 3L * NW) for (i = 0; i < NW; i++) stall_until[i] = 0;      /* the others need the frozen one */
+    if (!spin && stall_until[me] <= stepno && rnd() % 24 == 0) stall_until[me] = stepno + 600;
+    for (i = 0; i < NW; i++) if (stall_until[i] <= stepno && !(spin && i == me)) cand[nc++] = i;
+    if (nc == 0){ for (i = 0; i < NW; i++) stall_until[i] = 0; return spin ? (me + 1) % NW : me; }
+    if (!spin && stall_until[me] <= stepno && (rnd() & 1)) return me;
+    return cand[rnd() % (unsigned)nc];
+  }
   default:
     if (spin){ next = (int)(rnd() % (unsigned)(NW - 1)); if (next >= me) next++; return next; }
     /* keep running with probability 1/2, otherwise uniform: longer uninterrupted
@@ -349,6 +362,7 @@ void vrt_arm(const vrt_opts *o, const void *main_desc){
   for (i = 0; i < NW; i++){ sem_init(&sem[i], 0, 0); idle[i] = 0; }
   for (i = 0; i < NS_MAX; i++){ ids[i].n = 0; nalias[i] = 0; }
   nonprogress = 0; stepno = 0; lowprio = 0; vsec = 1000; vnsec = 0;
+  for (i = 0; i < MAXW; i++) stall_until[i] = 0;
   if (O.strategy == VRT_STRAT_PCT){
     for (i = 0; i < NW; i++) prio[i] = i + 1;
     for (i = NW - 1; i > 0; i--){ int j = (int)(rnd() % (unsigned)(i + 1)); long t = prio[i]; prio[i] = prio[j]; prio[j] = t; }
